@@ -1,6 +1,7 @@
 import BasicModel.Proto
 import BasicModel.ProtoAst
 import BasicModel.ProtoProg
+import BasicModel.ProtoRt
 import BasicModel.Spec.IntSpec
 import BasicModel.Spec.StrSpec
 /-
@@ -122,7 +123,53 @@ def answerCompile (rest : String) : String :=
     let p := Program.codegenLines {} lines
     showProgram p.linkProg
 
+/-- temporary `Line::renum`: renumbers the line itself only (reference rewriting needs the lexer) -/
+def stubLineRenum (changes : List (Nat × Nat)) (l : Line) : Line :=
+  match l.number with
+  | some n => { l with number := some ((changes.lookup n).getD n) }
+  | none => l
+
+def runLine : Line := ⟨none, [.word .run]⟩
+
+def mkEnv (given : Line) : Env :=
+  { lex := fun s => if s == "RUN".toList then runLine else given, lineRenum := stubLineRenum }
+
+/-- one call of a session; returns the new state and the text it contributes to the answer -/
+def sesCall (s : Runtime) (call : String) : Runtime × String :=
+  match call.splitOn " " with
+  | ["X", n, k] =>
+    (match n.toNat?, k.toNat? with
+     | some n, some k =>
+       let rec go : Nat → Runtime → List String → Runtime × List String
+         | 0, s, acc => (s, acc)
+         | k+1, s, acc =>
+           let (s, e) := Runtime.execute (mkEnv runLine) s n
+           go k s (showEvent e :: acc)
+       let (s, evs) := go k s []
+       (s, ";".intercalate evs.reverse)
+     | _, _ => (s, "bad-call"))
+  | ["I"] => (Runtime.interrupt s, "i")
+  | ["D"] => (s, "D{" ++ showCore s ++ "}")
+  | ["DP"] => (s, "D{" ++ showFull s ++ "}")
+  | ["G"] => (s, "g")
+  | ["g"] => (s, "g")
+  | "E" :: rest =>
+    let field := " ".intercalate rest
+    (match field.splitOn "~" with
+     | [src, _] =>
+       (match readSrcLine field with
+        | some line => (Runtime.enter (mkEnv line) s (strOfHex src), "e")
+        | none => (s, "bad-call"))
+     | _ => (s, "bad-call"))
+  | _ => (s, "bad-call")
+
+def answerSes (rest : String) : String :=
+  let calls := rest.splitOn "|"
+  let (_, outs) := calls.foldl (fun (s, acc) c => let (s, o) := sesCall s c; (s, o :: acc)) (({} : Runtime), [])
+  "|".intercalate outs.reverse
+
 def answer (line : String) : String :=
+  if line.startsWith "SES " then answerSes (line.drop 4).toString else
   if line.startsWith "COMPILE " then answerCompile (line.drop 8).toString else
   match line.splitOn " " with
   | "PARSE" :: rest => answerParse rest
